@@ -242,6 +242,11 @@ MIRSYM("item_iteration", ["C05", "C12"],
        "database: index 7 with items 1 and u32::MAX (+ metadata, marks, tree nodes) and neighbours 6 and 8; dimension 1..=300 symbolic; f32 and quantised leaves abstracted to (codec, logical length)",
        _lazy("e2_metric", "iter_obligation"), site="ItemIter::next")
 
+MIRSYM("query_entry_points", ["C03", "C19", "C05"],
+       "QueryBuilder::by_item searches with the stored leaf of exactly (index, Item, id) and the builder's own options, answers Ok(None) without searching when the id is not stored (same id under another kind / in neighbouring indexes notwithstanding); by_vector rejects every length != dimension with (expected, received) and otherwise searches with Leaf{new_header(v), v}; Reader/Writer::is_empty <=> the index has no item key; none of them writes",
+       "database: index 7 with items 1 and u32::MAX, decoys (7, Tree, 1), (6, Item, 2), (8, Item, 2); ids 0, 1, 2, u32::MAX; dimension 1..=300 and vector length 0..=400 symbolic; nns_by_leaf replaced by a recorder; f32 and quantised leaves",
+       _lazy("e2_query"), site="QueryBuilder::by_item / by_vector")
+
 MIRSYM("distance_kernels_structure", ["C11"],
        "for every length n the value computed by spaces::simple::{dot_product, euclidean_distance} on each dispatch path (AVX+FMA, SSE, scalar) equals sum_i a_i*b_i resp. sum_i (a_i-b_i)^2 modulo re-association of the sum: every index used exactly once, right pairing, right remainder, no out-of-bounds read",
        "n in 1..=40 and around every multiple of 16/32 up to 300 (thorough: all n in 1..=300); element values symbolic; float + as real addition, - and * uninterpreted (multiplication commutative); CPU features symbolic",
